@@ -431,12 +431,30 @@ pub trait AsView: Layout {
         }
 
         let items = range.into_slice_items();
+        assert!(
+            items.as_ref().len() <= self.ndim(),
+            "slice has {} items but tensor has {} dims",
+            items.as_ref().len(),
+            self.ndim()
+        );
 
         // Dimensions which have no corresponding slice item are retained in
         // full, as in `slice`.
         let sliced_shape: Vec<_> = (0..self.ndim())
             .filter_map(|dim| match items.as_ref().get(dim) {
-                Some(SliceItem::Index(_)) => None,
+                Some(SliceItem::Index(idx)) => {
+                    // Invalid indices are clamped to an empty range when
+                    // copying, which would leave the output uninitialized.
+                    let size = self.size(dim) as isize;
+                    assert!(
+                        *idx >= -size && *idx < size,
+                        "slice index {} is invalid for dim {} of size {}",
+                        idx,
+                        dim,
+                        size
+                    );
+                    None
+                }
                 Some(SliceItem::Range(range)) => Some(range.index_range(self.size(dim)).steps()),
                 None => Some(self.size(dim)),
             })
